@@ -16,6 +16,7 @@ package base
 
 import (
 	"sync"
+	"sync/atomic"
 
 	"github.com/pkg/errors"
 
@@ -35,6 +36,9 @@ type SentinelEntry struct {
 	sc *SlotChain
 
 	exitCtl sync.Once
+	// exited is set to 1 once Exit has run: from then on the context belongs to the pool
+	// (and possibly to another entry), so late calls on this entry must not touch it.
+	exited int32
 }
 
 func NewSentinelEntry(ctx *EntryContext, rw *ResourceWrapper, sc *SlotChain) *SentinelEntry {
@@ -51,13 +55,13 @@ func (e *SentinelEntry) WhenExit(exitHandler ExitHandler) {
 }
 
 func (e *SentinelEntry) SetError(err error) {
-	if e.ctx != nil {
+	if e.ctx != nil && atomic.LoadInt32(&e.exited) == 0 {
 		e.ctx.SetError(err)
 	}
 }
 
 func (e *SentinelEntry) SetPair(key, val interface{}) {
-	if e.ctx != nil {
+	if e.ctx != nil && atomic.LoadInt32(&e.exited) == 0 {
 		e.ctx.SetPair(key, val)
 	}
 }
@@ -92,7 +96,7 @@ func (e *SentinelEntry) Exit(exitOps ...ExitOption) {
 	if ctx == nil {
 		return
 	}
-	if options.err != nil {
+	if options.err != nil && atomic.LoadInt32(&e.exited) == 0 {
 		ctx.SetError(options.err)
 	}
 	e.exitCtl.Do(func() {
@@ -100,6 +104,7 @@ func (e *SentinelEntry) Exit(exitOps ...ExitOption) {
 			if err := recover(); err != nil {
 				logging.Error(errors.Errorf("%+v", err), "Sentinel internal panic in SentinelEntry.Exit()")
 			}
+			atomic.StoreInt32(&e.exited, 1)
 			if e.sc != nil {
 				e.sc.RefurbishContext(ctx)
 			}
